@@ -49,31 +49,43 @@ impl Cfg {
     }
     pub fn to_json(&self) -> Value {
         json!({"version": self.version, "shift": self.shift, "method": method_name(self.method), "enc": self.enc,
-               "crc": self.crc, "attr": self.attr, "listfile": self.listfile, "tblcomp": self.tblcomp})
+               "crc": self.crc, "attr": self.attr, "listfile": self.listfile, "tblcomp": self.tblcomp, "setter_order": self.setter_order()})
     }
     pub fn class(&self) -> String {
         format!("v{}|s{}|{}|e{}|c{}|a{}|l{}|t{}", self.version, self.shift, method_name(self.method), self.enc, self.crc as u8, self.attr, self.listfile as u8, self.tblcomp as u8)
     }
+    /// The builder's two checksum-related setters influence each other, so the order of the calls is part of the
+    /// configuration (after C01-r7m3): 0 = attributes, then generate_crcs(true) only when wanted; 1 = attributes, then
+    /// generate_crcs(wanted) also when false (attributes on, sector checksums explicitly off); 2 = generate_crcs(true),
+    /// generate_crcs(wanted), then attributes (the last call decides about the attributes file).
+    pub fn setter_order(&self) -> u8 {
+        ((self.version as u32 + self.shift as u32 + self.method as u32 + 3 * self.enc as u32 + 5 * self.attr as u32 + 7 * self.crc as u32 + self.listfile as u32 + 2 * self.tblcomp as u32) % 3) as u8
+    }
     pub fn builder(&self) -> ArchiveBuilder {
         let mut b = ArchiveBuilder::new().version(self.fmt_version()).block_size(self.shift).default_compression(self.method);
         b = b.listfile_option(if self.listfile { ListfileOption::Generate } else { ListfileOption::None });
-        // order matters in the builder: generate_crcs(true) implies CRC32 attributes when none chosen
-        b = match self.attr {
+        let attr = |b: ArchiveBuilder| match self.attr {
             1 => b.attributes_option(AttributesOption::GenerateCrc32),
             2 => b.attributes_option(AttributesOption::GenerateFull),
             _ => b.attributes_option(AttributesOption::None),
         };
-        if self.crc {
-            b = b.generate_crcs(true);
-        }
+        b = match self.setter_order() {
+            0 => {
+                let b = attr(b);
+                if self.crc { b.generate_crcs(true) } else { b }
+            }
+            1 => attr(b).generate_crcs(self.crc),
+            _ => attr(b.generate_crcs(true).generate_crcs(self.crc)),
+        };
         if self.version >= 3 {
             b = b.compress_tables(self.tblcomp);
         }
         b
     }
-    /// Does this configuration end up with an (attributes) file? (generate_crcs implies CRC32 attributes)
+    /// Does this configuration end up with an (attributes) file? (generate_crcs(true) implies CRC32 attributes when none were
+    /// chosen before it; an attributes_option call after it decides alone)
     pub fn has_attributes(&self) -> bool {
-        self.attr != 0 || self.crc
+        self.attr != 0 || (self.crc && self.setter_order() != 2)
     }
     /// Are sector checksums effectively on? (asking for attributes turns them on in the builder)
     pub fn effective_crc(&self) -> bool {
